@@ -157,7 +157,13 @@ pub fn generate(seed: u64, index: u64) -> Sc {
             if r.chance(1, 4) {
                 match r.below(7) {
                     0 => fs_faults.open_write_errno = Some(libc::EACCES),
-                    1 => fs_faults.enospc_after_bytes = Some(r.range(0, 9000) as u64),
+                    1 => match r.weighted(&[3, 2, 3]) {
+                        0 => fs_faults.enospc_after_bytes = Some(r.range(0, 9000) as u64),
+                        // just past a buffer boundary of csv::Writer / BufWriter: the error then hits the final flush
+                        1 => fs_faults.enospc_after_bytes = Some(*r.pick(&[8192u64, 16384]) + r.range(0, 80) as u64),
+                        // inside the last rows of whatever the run writes
+                        _ => fs_faults.enospc_before_end = Some(r.range(1, 70) as u64),
+                    },
                     2 => fs_faults.rename_errno = Some(libc::EIO),
                     3 => fs_faults.mkdir_errno = Some(libc::EACCES),
                     4 => fs_faults.fsync_errno = Some(libc::EIO),
@@ -288,6 +294,39 @@ impl Engine for C13 {
             if run.app_path && run.app_files > 1 {
                 st.bump("probe.app_path_several_files_one_loader");
             }
+            let mut fs_faults = run.fs_faults.clone();
+            if let Some(k) = fs_faults.enospc_before_end {
+                // dry run on a copy of the world: how many bytes would this run write?
+                let saved = crate::interpose::with_world(|w| w.fs.disk.clone());
+                let mut dry_faults = fs_faults.clone();
+                dry_faults.enospc_before_end = None;
+                let dry = run_fx_process(FxPlan {
+                    data: boc.clone(),
+                    today,
+                    published_today: pt,
+                    force: run.force,
+                    cache: sc.cache.clone(),
+                    mem_in: mem.clone(),
+                    lookups: lookups.clone(),
+                    app_rows: app_rows.clone(),
+                    app_files: run.app_files.max(1),
+                    app_console: false,
+                    app_legacy_date: false,
+                    net_faults: run.net_faults.clone(),
+                    server_today: None,
+                    fs_faults: dry_faults,
+                    knobs: Knobs { max_write: sc.max_write, max_read: sc.max_read },
+                    hash_seed: run.hash_seed,
+                });
+                crate::interpose::with_world(|w| w.fs.disk = saved);
+                st.bump("sim.processes");
+                let total: u64 = dry.proc.journal.iter().map(|o| if let crate::simfs::Op::Write { data, .. } = o { data.len() as u64 } else { 0 }).sum();
+                fs_faults.enospc_before_end = None;
+                if total > k {
+                    fs_faults.enospc_after_bytes = Some(total - k);
+                    st.bump("fault.fs_enospc_inside_the_last_rows_armed");
+                }
+            }
             let obs = run_fx_process(FxPlan {
                 data: boc.clone(),
                 today,
@@ -302,7 +341,7 @@ impl Engine for C13 {
                 app_legacy_date: false,
                 net_faults: run.net_faults.clone(),
                 server_today: None,
-                fs_faults: run.fs_faults.clone(),
+                fs_faults: fs_faults.clone(),
                 knobs: Knobs { max_write: sc.max_write, max_read: sc.max_read },
                 hash_seed: run.hash_seed,
             });
@@ -485,7 +524,7 @@ impl Engine for C13 {
             }
             // remember successful downloads whose cache write was not disturbed
             let write_fault_now = obs.proc.fs_faults_fired.keys().any(|k| !k.contains("read"));
-            if !write_fault_now && !run.fs_faults.enospc_after_bytes.is_some() {
+            if !write_fault_now && !fs_faults.enospc_after_bytes.is_some() {
                 for rq in &obs.requests {
                     if rq.ok {
                         downloaded_on.insert(rq.year, (today, pt));
